@@ -28,6 +28,14 @@ ChooseCombo == /\ phase = "op" /\ "like" \in Ops
                /\ \E o1, o2 \in {"eq", "like", "eeq"} : o1 # o2 /\ op' = o1 /\ op2' = o2
                /\ pat' \in ComboPats /\ conn' \in {"and", "or"}
                /\ phase' = "done" /\ UNCHANGED rx
+(* ... and a regular expression with the same text as a LIKE / glob pattern (each kind keeps its own compiled form) *)
+RxComboPats == { <<"a", "_">>, <<"B", "%">>, <<"a", "?">>, <<"a", "*">>, <<"_", "a">>, <<"1", "+">> }
+RxFor(p) == IF p[2] \in {"*", "?", "+"} THEN [els |-> << [ch |-> p[1], q |-> p[2]] >>, astart |-> FALSE, aend |-> FALSE]
+            ELSE [els |-> << [ch |-> p[1], q |-> "1"], [ch |-> p[2], q |-> "1"] >>, astart |-> FALSE, aend |-> FALSE]
+ChooseComboRx == /\ phase = "op" /\ "like" \in Ops /\ "rx" \in Ops
+                 /\ \E o \in {"eq", "like"}, first \in BOOLEAN : (IF first THEN op' = "rx" /\ op2' = o ELSE op' = o /\ op2' = "rx")
+                 /\ pat' \in RxComboPats /\ rx' = RxFor(pat') /\ conn' \in {"and", "or"}
+                 /\ phase' = "done"
 AddChar == /\ phase = "build" /\ op \notin {"rx", "notrx"} /\ Len(pat) < MaxLen
            /\ \E c \in PatChars(op) : pat' = Append(pat, c)
            /\ UNCHANGED <<op, rx, phase, op2, conn>>
@@ -42,10 +50,10 @@ Finish == /\ phase = "build"
              ELSE /\ pat # <<>>
                   /\ UNCHANGED <<pat, rx>>
           /\ phase' = "done" /\ UNCHANGED <<op, op2, conn>>
-Next == ChooseOp \/ ChooseCombo \/ AddChar \/ AddEl \/ Finish
+Next == ChooseOp \/ ChooseCombo \/ ChooseComboRx \/ AddChar \/ AddEl \/ Finish
 Spec == Init /\ [][Next]_vars
 
-OpTextOf(o) == CASE o = "eq" -> "=" [] o = "like" -> "like" [] o = "eeq" -> "==="
+OpTextOf(o) == CASE o = "eq" -> "=" [] o = "like" -> "like" [] o = "eeq" -> "===" [] o = "rx" -> "=~"
 OpText == CASE op = "eq" -> "=" [] op = "ne" -> "!=" [] op = "like" -> "like" [] op = "notlike" -> "not like"
             [] op = "eeq" -> "===" [] op = "ene" -> "!==" [] op = "rx" -> "=~" [] op = "notrx" -> "!=~"
 Quote(txt, hasq) == IF hasq THEN "\"" \o txt \o "\"" ELSE "'" \o txt \o "'"
